@@ -33,6 +33,10 @@ var (
 // it only makes mismatch signatures narrower, it never decides a verdict.
 func Hazard(t TruthCommit) string {
 	switch {
+	case len(t.Subject) > 65536:
+		return "subject-over-64KiB"
+	case t.Subject != strings.TrimSpace(t.Subject):
+		return "subject-starts-or-ends-with-(unicode)-space"
 	case bracketHex.MatchString(t.Subject):
 		return "subject-has-[hex]"
 	case strings.Contains(t.Subject, t.Author):
